@@ -500,9 +500,13 @@ class Driver:
                 limited(lambda: self.doc.get_part(n).root)
             elif k == "edit":
                 n = o["name"]
-                limited(self.do_edit, n, o["how"], o.get("arg"))
-                tree = self.doc._Document__xmlparts[n]._XmlPart__tree
-                opt_term = "OEdit %s (%s)" % (z(it.name(n)), cx_term(xinfo_root(tree.getroot()), it))
+                edited = limited(self.do_edit, n, o["how"], o.get("arg"))
+                xp = self.doc._Document__xmlparts.get(n)
+                if xp is not None and xp._XmlPart__tree is not None:
+                    root = xp._XmlPart__tree.getroot()
+                else:       # the wrapper that was edited is not (any more) the cached part: abstract the tree the edit went to
+                    root = edited._Element__element.getroottree().getroot()
+                opt_term = "OEdit %s (%s)" % (z(it.name(n)), cx_term(xinfo_root(root), it))
             elif k == "set":
                 n = o["name"]; data = self.make_data(n, o.get("variant", 0), o.get("data"))
                 opt_term = "OSetPart %s (%s)" % (z(it.name(n)), bytes_term(n, data, it))
@@ -590,6 +594,7 @@ class Driver:
         d = self.doc
         if n == "content.xml":
             body = d.body
+            ret = body
             if how == "par":
                 body.append(Paragraph(arg or "added  text\twith   spaces"))
             elif how == "frame":
@@ -620,6 +625,9 @@ class Driver:
         else:
             part = d.get_part(n)
             part.root.set_attribute("office:version", arg or "1.2")
+        if n == "content.xml":
+            return ret
+        return d.get_part(n).root
 
 
 def step_case10(r):
@@ -808,19 +816,35 @@ def _work_one(args):
         return hid, None, "harness: " + traceback.format_exc()[-1500:]
 
 
+def fix_src(p):
+    """source paths stored in corpus / replay files are re-rooted to the implementation under test"""
+    if isinstance(p, str):
+        for mark in ("/tests/samples/", "/src/odfdo/templates/"):
+            if mark in p:
+                return str(common.REPO) + mark + p.split(mark, 1)[1]
+    return p
+
+
 def run_concrete(drv, ops):
     """replay: a list of concrete op dicts (as stored in a replay / corpus file)"""
     drv.reset()
     recs = []
     pending = []
+    last_returned = None
     for c in ops:
         c_run = dict(c)
         c_run.pop("saved_index", None); c_run.pop("returned", None)
+        if "src" in c_run:
+            c_run["src"] = fix_src(c_run["src"])
+        if c_run.get("use_returned") and last_returned:
+            c_run["name" if c_run["op"] == "del" else "arg"] = last_returned
         if "content" in c_run and isinstance(c_run["content"], str):
             c_run["content"] = c_run["content"].encode("latin-1")
         if "data" in c_run and isinstance(c_run["data"], str):
             c_run["data"] = c_run["data"].encode("latin-1")
         r = drv.apply(c_run)
+        if c_run.get("returned"):
+            last_returned = c_run["returned"]
         if r is None:
             pending.append(dict(c)); continue
         r["concrete"] = dict(c); r["env_before"] = pending; pending = []
